@@ -22,10 +22,10 @@ struct M
 } m;
 std::set<unsigned long long> *fresh_values;
 
-enum { P_POLL_TRUE = 0, P_POLL_FALSE, P_COALESCED, P_LATE_OBSERVER, P_OBSERVABLE_FIRST, P_OBSERVER_FIRST, P_POLL_ORPHAN, P_CONCURRENT_STAMPS, P_BULK, P_COPIED_OBSERVER, P_COPIED_OBSERVABLE, P_ASSIGNED };
+enum { P_POLL_TRUE = 0, P_POLL_FALSE, P_COALESCED, P_LATE_OBSERVER, P_OBSERVABLE_FIRST, P_OBSERVER_FIRST, P_POLL_ORPHAN, P_CONCURRENT_STAMPS, P_BULK, P_COPIED_OBSERVER, P_COPIED_OBSERVABLE, P_ASSIGNED, P_HOP };
 const char *probe_names[] = {"poll_returned_true", "poll_returned_false", "repeated_notifications_between_polls", "observer_created_after_notification",
                              "observable_destroyed_before_its_observer", "observer_destroyed_before_its_observable", "poll_after_observable_destroyed",
-                             "stamps_taken_by_two_or_more_threads", "observable_with_10_to_40_more_observers", "observer_created_as_a_copy", "observable_created_as_a_copy", "observer_or_observable_assigned", nullptr};
+                             "stamps_taken_by_two_or_more_threads", "observable_with_10_to_40_more_observers", "observer_created_as_a_copy", "observable_created_as_a_copy", "observer_or_observable_assigned", "observer_operations_spread_over_helper_threads", nullptr};
 const char *no_faults[] = {nullptr};
 int notify_count[C19_MAXOBSERVABLES];
 int stamp_threads_seen;
@@ -44,6 +44,9 @@ void do_plan(int tier)
 {
   plan.nobs_ops = (int)sim_plan(tier ? 25 : 19);
   sim_set_tso(sim_plan(4) == 0);
+  plan.hop_mask = sim_plan(3) == 0 ? sim_plan(1u << 16) | sim_plan(1u << 9) << 16 : 0;
+  if (plan.hop_mask)
+    sim_probe(P_HOP);
   plan.bulk_n = 0;
   if (plan.nobs_ops >= 4 && sim_plan(6) == 0) {
     // an observable with many observers (registries grow, reallocate, change representation)
@@ -98,7 +101,7 @@ int stuck(int deadlock, char *cls, size_t n)
 void describe(char *buf, size_t n)
 {
   static const char *on[] = {"new-observable", "new-observer", "notify", "poll", "del-observer", "del-observable", "copy-observer", "copy-observable", "assign-observer", "assign-observable"};
-  int k = snprintf(buf, n, "{\"stamp_threads\": %d, \"thread0_stamps\": %d, \"observer_history\": [", plan.nthreads, plan.t0_stamp_ops);
+  int k = snprintf(buf, n, "{\"stamp_threads\": %d, \"thread0_stamps\": %d, \"operations_on_helper_threads_mask\": %u, \"observer_history\": [", plan.nthreads, plan.t0_stamp_ops, plan.hop_mask);
   for (int i = 0; i < plan.nobs_ops && k < (int)n - 80; i++)
   {
     char from[24] = "";
